@@ -40,6 +40,9 @@ RULE = ("import_graph: random object graphs of 1..14 objects (nested arrays/dict
         "a touched dictionary, a new pending stream linked in) — the specification applies the updates to the source graph and requires the "
         "reading steps to change nothing; filters: hex, a85, rle, lzw, flate, chains up to three, image codecs that stop the decode early "
         "(dct, jpx behind ascii filters); stream data is judged by raw bytes + filter chain, and by the decoded bytes as far as decodable; "
+        "tiling patterns in the resources of forms (operation sequence, entries, used resources of the copied pattern), marked content "
+        "with inline / referenced / named property lists and property lists that cannot be copied (import fails or the sequence is kept), "
+        "Indexed colour spaces with palettes below 100 bytes, streams with non-default /DecodeParms; "
         "non-trivial = at least two source objects reachable; distinct by (mode, file, selection, configuration, history)")
 CASE_TIMEOUT = 30.0
 MODEL_TIMEOUT = 120.0
@@ -334,21 +337,28 @@ PAGE_KNOWN = {"Type", "Parent", "Resources", "MediaBox", "CropBox", "TrimBox", "
 OP_VARIANT = {b"gs": b"GraphicsState", b"Tf": b"TextFont", b"Do": b"XObject", b"cs": b"FillColorSpace", b"CS": b"StrokeColorSpace", b"sh": b"Shade"}
 
 
+def model_num(v):
+    """operand values for the model: integral numbers as integers (the importer never looks inside a number)"""
+    if isinstance(v, float) and v == int(v):
+        return int(v)
+    if isinstance(v, list):
+        return [model_num(x) for x in v]
+    if isinstance(v, dict):
+        return {k: model_num(x) for k, x in v.items()}
+    return v
+
+
 def model_uses(toks):
-    """the uses list of the model: every operation that names a resource, in order (with repetitions), and
-    inline marked-content property dictionaries"""
+    """the uses list of the model: every operation that names a resource, in order (with repetitions), and the
+    property list of every BDC / DP (Op::BeginMarkedContent / MarkedContentPoint { properties: Some(p) }) as [p]"""
     out = []
-    stack = []
-    for t in toks:
-        if t[0] != "op":
-            stack.append(t)
-            continue
-        op = t[1]
-        names = [x[1] for x in stack if x[0] == "name"]
+    for op, args in G.operations(toks):
+        names = [x.s for x in args if isinstance(x, Name)]
         if op in OP_VARIANT and names:
             nm = names[0] if op == b"Tf" else names[-1]
             out.append(b"[N" + OP_VARIANT[op].hex().encode() + b"; N" + nm.hex().encode() + b";]")
-        stack = []
+        elif op in (b"BDC", b"DP") and len(args) >= 2:
+            out.append(b"[" + G.canon_model(model_num(args[1])) + b"]")
     return b"[" + b" ".join(out) + b"]"
 
 
@@ -418,8 +428,9 @@ def same(a, b):
     return same_result(norm(a), norm(b))
 
 
-def page_case(rng, doc, sel, tags=(), kind="structured", hist=None, flags=None):
-    """hist = (kind, steps) done on the source before the import; flags = cache configuration (None: random)"""
+def page_case(rng, doc, sel, tags=(), kind="structured", hist=None, flags=None, model=None, jopts=None):
+    """hist = (kind, steps) done on the source before the import; flags = cache configuration (None: random);
+    model = False: judged by the specification only; jopts: options of G.judge_import"""
     data = docs.write(doc, rng)
     hkind, steps = hist if hist is not None else ("none", [])
     g = apply_updates(dict(doc.objs), steps)
@@ -430,17 +441,71 @@ def page_case(rng, doc, sel, tags=(), kind="structured", hist=None, flags=None):
     st = b",".join(b"%d" % i for i in sel)
     tags = list(tags) + ["hist:" + hkind, "cfg:" + (flags.decode() or "-")]
 
-    def chk(r, g=g, tr=tr, sel=list(sel), exp=doc.expect):
+    def chk(r, g=g, tr=tr, sel=list(sel), exp=doc.expect, jopts=dict(jopts or {})):
         if r[0] == "ERR":
             # the property speaks about imports that succeed; an error is allowed (typed writers refuse some values)
             return None
         if r[0] != "OK":
             return "importing must not %s (%s)" % (r[0], r[1][:80])
-        return G.judge_import(g, tr, sel, r[1], expect=exp)
+        return G.judge_import(g, tr, sel, r[1], expect=exp, **jopts)
     # the model clones dictionary forms; a value the typed writers refuse (ColorSpace::to_primitive for DeviceGray …)
     # ends the real import in an error the model cannot predict: such documents are judged by the spec only
     return Case("import", [b"s", data, st, flags or b"-"] + ([hist_text(steps)] if steps else []), mfields=[graph_text(g), pt], check=chk,
-                model="typed-writer-refuses" not in doc.features, tags=["pages"] + sorted(doc.features) + list(tags), kind=kind)
+                model=("typed-writer-refuses" not in doc.features) if model is None else model, tags=["pages"] + sorted(doc.features) + list(tags), kind=kind)
+
+
+def seq_case(rng, doc, sel, tags=(), hist=None, flags=None, jopts=None):
+    """mode import_seq: the pages of `sel` through one Importer, going on after a page that fails.  Every page that was
+    imported is judged as if it had been imported alone: equal to its source page, self-contained, shared objects copied
+    once — whatever happened to the pages before it.  A page may fail.  No model (the model stops at the first failure)."""
+    data = docs.write(doc, rng)
+    hkind, steps = hist if hist is not None else ("none", [])
+    g = apply_updates(dict(doc.objs), steps)
+    if flags is None:
+        flags = rnd_config(rng, bool(steps))
+    tr = {"Root": Ref(doc.root)}
+    st = b",".join(b"%d" % i for i in sel)
+
+    def chk(r, g=g, tr=tr, sel=list(sel), exp=doc.expect, jopts=dict(jopts or {})):
+        if r[0] == "ERR":
+            return None
+        if r[0] != "OK":
+            return "importing must not %s (%s)" % (r[0], r[1][:80])
+        status = r[1][0]
+        if len(status) != len(sel) or any(c not in b"ke" for c in status):
+            return "harness: %d page states %r for %d pages" % (len(status), status, len(sel))
+        done = [p for p, c in zip(sel, status) if c == ord("k")]
+        if not done:
+            return None
+        why = G.judge_import(g, tr, done, r[1][1:], expect=exp, page_entries=True, **jopts)
+        if why and b"e" in status:
+            k = status.index(b"e")
+            why += " [sequence %s, states %s: the import of page %d failed before]" % (",".join(map(str, sel)), status.decode(), sel[k])
+        return why
+    return Case("import_seq", [b"s", data, st, flags or b"-"] + ([hist_text(steps)] if steps else []), check=chk, model=False,
+                tags=["pages", "sequence"] + sorted(doc.features) + list(tags) + ["hist:" + hkind, "cfg:" + (flags.decode() or "-")], kind="malformed")
+
+
+def unreadable_case(rng, doc, sel, num, nbytes, tags=()):
+    """an encrypted source in which stream `num`, which a selected page reaches, cannot be decrypted: the import returns an
+    error, or the copy's stream data equals the source's — and the source has none, so a success is a difference"""
+    data = docs.write_encrypted(doc, rng, num, nbytes)
+    g = dict(doc.objs)
+    v = g[num]
+    g[num] = Stream(v.d, b"\x00<data that cannot be decrypted>\x00")
+    tr = {"Root": Ref(doc.root)}
+    flags = rnd_config(rng, False)
+
+    def chk(r, g=g, tr=tr, sel=list(sel), exp=doc.expect):
+        if r[0] == "ERR":
+            return None
+        if r[0] != "OK":
+            return "importing must not %s (%s)" % (r[0], r[1][:80])
+        why = G.judge_import(g, tr, sel, r[1], expect=exp, page_entries=True)
+        return "the import succeeded although the data of source stream %d (%d encrypted bytes: not decryptable), which the page uses, " \
+               "cannot be read: no copy can be equal%s" % (num, nbytes, " — " + why if why else "")
+    return Case("import", [b"s", data, b",".join(b"%d" % i for i in sel), flags or b"-"], check=chk, model=False,
+                tags=["pages", "unreadable-stream"] + sorted(doc.features) + list(tags) + ["cfg:" + (flags.decode() or "-")], kind="malformed")
 
 
 def corpus_cases(tier):
@@ -581,6 +646,90 @@ def generate(rng, tier):
         yield c
     for c in malformed_docs(rng):
         yield c
+    # tiling patterns held by the resources of a form (the typed clone of a form copies its whole resource dictionary;
+    # Pattern::deep_clone parses the pattern's operations, clones them one by one, prunes the pattern's own resources to
+    # what they name and writes the operations anew): the pattern of the copy must have the same operation sequence, the
+    # same entries and every resource its operations use.  No model: the model clones the dictionary form of a pattern.
+    for i in range(20 if quick else 300):
+        doc = docs.gen_doc(rng)
+        docs.plant_pattern_form(doc, rng, docs.PATTERN_FORM_KINDS[i % len(docs.PATTERN_FORM_KINDS)])
+        k = len(doc.pages)
+        sel = list(range(k)) if i % 3 else [rng.randrange(k) for _ in range(rng.randrange(1, 4))]
+        hk = rng.choice(["none", "none", "render", "render-all", "ops", "decode-all", "fonts", "images"])
+        yield page_case(rng, doc, sel, tags=["form-pattern"], model=False, jopts=PATTERN_JOPTS, hist=rnd_page_history(rng, doc, sel, hk))
+
+
+    # marked content: BMC / MP, BDC / DP with an inline property list, with references in it (to one object, shared between
+    # pages, a chain ending in a stream), a named property list in a form's resources; the operation sequence after the
+    # reload equals the source's, a reference standing for what it designates (G.ops_problem), copied once.
+    # And property lists that cannot be copied (a reference to nothing, directly / nested / behind an existing object):
+    # the import fails, or the new page has the source's operation sequence (never BDC turned into BMC, DP into MP).
+    for i in range(16 if quick else 240):
+        kinds = docs.MC_KINDS + docs.MC_BAD_KINDS
+        kind = kinds[i % len(kinds)]
+        doc = docs.gen_doc(rng)
+        changed = docs.plant_marked_content(doc, rng, kind)
+        k = len(doc.pages)
+        sel = list(range(k)) if i % 2 == 0 else changed + [rng.randrange(k) for _ in range(rng.randrange(0, 2))]
+        hk = rng.choice(["none", "none", "render", "ops", "decode-all", "touch", "new-object"])
+        yield page_case(rng, doc, sel, tags=["marked-content"] + (["malformed:" + kind] if kind in docs.MC_BAD_KINDS else []),
+                        kind="malformed" if kind in docs.MC_BAD_KINDS else "structured", hist=rnd_page_history(rng, doc, sel, hk))
+
+
+    # Indexed colour spaces with palettes below 100 bytes (as a string / as an indirect stream; as an image's /ColorSpace and
+    # as a /ColorSpace resource of a form used by cs + scn): the same base, hival and palette bytes after the import, the
+    # palette a string or an indirect stream.  Streams whose /DecodeParms say something (PNG / TIFF predictor, EarlyChange 0,
+    # [null <<…>>] in a chain; images and forms): the copy's parameters say the same, entry by entry modulo Table 8 defaults.
+    for i in range(14 if quick else 280):
+        doc = docs.gen_doc(rng)
+        if i % 2 == 0:
+            docs.plant_indexed(doc, rng, docs.INDEXED_KINDS[(i // 2) % len(docs.INDEXED_KINDS)])
+        else:
+            docs.plant_parms(doc, rng, docs.PARMS_KINDS[(i // 2) % len(docs.PARMS_KINDS)])
+        k = len(doc.pages)
+        sel = list(range(k))
+        hk = rng.choice(["none", "none", "render-all", "images", "raw-images", "ops", "decode-all", "touch"])
+        yield page_case(rng, doc, sel, tags=["typed-values"], hist=rnd_page_history(rng, doc, sel, hk))
+
+
+    # sequences through ONE Importer in which the import of a page fails (every way the typed layer has of failing after the
+    # carrier object was loaded and memoised) and later pages share objects with the failed page (through a soft mask's
+    # group, painted again, an untyped page entry, a sibling resource, the unreadable object itself, the inner form)
+    nseq = 0
+    for i in range(21 if quick else 315):
+        fail = docs.FAIL_KINDS[i % len(docs.FAIL_KINDS)]
+        share = docs.SHARE_KINDS[i % len(docs.SHARE_KINDS)]
+        doc = docs.gen_doc(rng, npages=rng.choice([2, 2, 3, 4]))
+        while "typed-writer-refuses" in doc.features:
+            # (a value the typed writers refuse fails in `fulfill`: the reserved id stays an open promise and the target
+            #  cannot be saved at all — nothing to judge; reported as a defect of the unchanged library)
+            doc = docs.gen_doc(rng, npages=rng.choice([2, 2, 3, 4]))
+        a, b = docs.plant_failing_share(doc, rng, fail, share)
+        k = len(doc.pages)
+        others = [x for x in range(k) if x not in (a, b)]
+        sels = [[a, b], rng.choice([[a, b, b], [b, a, b], [a, a, b], [a] + others + [b], [a, b, a, b]])]
+        if i % 5 == 0:
+            sels.append(list(range(k)))
+        for sel in sels:
+            hk = rng.choice(["none", "none", "none", "render", "ops", "decode-all"])
+            yield seq_case(rng, doc, sel, tags=["seq:" + fail, "seq-share:" + share], hist=rnd_page_history(rng, doc, sel, hk))
+
+
+    # encrypted sources (AESV2) in which a stream the page reaches cannot be decrypted (1..15 bytes, or an IV and a partial
+    # block): under an untyped reference (soft-mask group, also behind another form; an untyped page entry) and a typed one
+    for i in range(8 if quick else 120):
+        kind = docs.UNREADABLE_KINDS[i % len(docs.UNREADABLE_KINDS)]
+        doc = docs.gen_doc(rng, npages=rng.choice([1, 2]))
+        pi, num = docs.plant_unreadable(doc, rng, kind)
+        nbytes = rng.choice([rng.randrange(1, 16), rng.randrange(17, 32), 5])
+        sel = [pi] if i % 2 else list(range(len(doc.pages)))
+        yield unreadable_case(rng, doc, sel, num, nbytes)
+
+
+# The typed PatternDict has no field for /Type and /PatternType and no catch-all: the copy of a tiling pattern lacks both
+# (a defect of the typed writer, C15's subject; /PatternType is required by Table 75).  The cases about patterns are
+# narrowed to everything else — operation sequence, the other entries, the resources used — by naming the two keys here.
+PATTERN_JOPTS = {"pattern_lost_ok": ("Type", "PatternType")}
 
 
 def always(case, r):
@@ -641,7 +790,10 @@ def coverage_extra(cases, impl, model):
     hist_panics = sum(1 for c, r in zip(cases, impl) if r and r[0] == "ERR" and "history:panic" in r[1])
     cached_hist = sum(1 for c in cases if any(t.startswith("cfg:c") for t in c.tags) and not any(t == "hist:none" for t in c.tags)
                       and any(t.startswith("hist:") for t in c.tags))
+    seqs = [(c, r) for c, r in zip(cases, impl) if c.mode == "import_seq" and r and r[0] == "OK"]
+    after = sum(1 for c, r in seqs if b"ek" in r[1][0].replace(b"e" * 2, b"e"))
     return {"generator_features": dict(sorted(feats.items())), "imports_ending_in_error": errs,
+            "sequences_run": len(seqs), "sequences_with_an_import_after_a_failed_page": after,
             "histories_on_cached_sources": cached_hist, "histories_that_panicked_before_the_import": hist_panics,
             "workarounds": ["single revision, no bytes before the header", "only dictionaries in object streams",
                             "images state /ImageMask and /Interpolate explicitly; DeviceGray images rare (ColorSpace::to_primitive unimplemented)",
